@@ -666,7 +666,7 @@ pub fn worker(args: &[String]) -> i32 {
     set_limits(8 << 30);
     for i in from..to.min(cases.len()) {
         emit(&format!("S {i}"));
-        arm_alarm(20);
+        arm_alarm(60);
         run_case(i, &cases[i]);
         arm_alarm(0);
         emit(&format!("E {i}"));
@@ -691,7 +691,7 @@ fn class_of(desc: &str) -> String {
 pub fn run(tier: &str) -> i32 {
     let rep = Report::new("C08", tier, "exploration");
     let thorough = rep.thorough();
-    rep.rule("deterministic neighbourhoods of 12 small valid archives (library-written and foreign, 0-7 tiles, with and without leaf levels, 4 compressions): every prefix; every single-byte substitution by {00,01,7F,80,FF}; splices of two archives at every 8th offset and at the section boundaries; structure-aware deviations of every varint field of every directory to {0,1,2^7,2^31,2^32-1,2^32,2^62,2^63,2^64-1} with lengths fixed up or left stale, of every header u64 to 10 boundary values and of the enum/zoom/version bytes to all 256 codes (thorough: all pairs of deviations); a hand-written hazard corpus (counts up to 2^64-1, wrapping id sums, zero first offset, contiguous-offset overflow, id+run overflow, section offsets near 2^64, self-pointing leaf, root as its own leaf, 2-cycle, leaf chains up to 10^4). Each input goes through Header/Directory/PMTiles readers, lookups, partial opens, re-writes, read_directories, decompress_all and the async twins inside worker processes (RLIMIT_AS 8 GiB, 8 MiB stack, 20 s alarm). non-trivial = inputs that differ from a valid archive; distinct = distinct byte strings");
+    rep.rule("deterministic neighbourhoods of 12 small valid archives (library-written and foreign, 0-7 tiles, with and without leaf levels, 4 compressions): every prefix; every single-byte substitution by {00,01,7F,80,FF}; splices of two archives at every 8th offset and at the section boundaries; structure-aware deviations of every varint field of every directory to {0,1,2^7,2^31,2^32-1,2^32,2^62,2^63,2^64-1} with lengths fixed up or left stale, of every header u64 to 10 boundary values and of the enum/zoom/version bytes to all 256 codes (thorough: all pairs of deviations); a hand-written hazard corpus (counts up to 2^64-1, wrapping id sums, zero first offset, contiguous-offset overflow, id+run overflow, section offsets near 2^64, self-pointing leaf, root as its own leaf, 2-cycle, leaf chains up to 10^4). Each input goes through Header/Directory/PMTiles readers, lookups, partial opens, re-writes, read_directories, decompress_all and the async twins inside worker processes (RLIMIT_AS 8 GiB, 8 MiB stack, 60 s alarm). non-trivial = inputs that differ from a valid archive; distinct = distinct byte strings");
     rep.assume("inputs whose directories declare more than 2^22 tiles/steps (lenient reference walk) are outside the claim and are counted as skipped");
     rep.assume("build has overflow checks on: arithmetic overflow is an observable panic");
     let cases = corpus(thorough);
